@@ -97,6 +97,16 @@ def run_impl(case):
             a = pickle.loads(pickle.dumps(A(xs), case.get("proto", 2))); out = [x.ticks for x in a]
         elif path == "deepcopy":
             a = copy.deepcopy(A(xs)); out = [x.ticks for x in a]
+        elif path in ("ctor_from_array_write_copy", "ctor_from_array_write_orig", "ctor_from_iter_write"):
+            # a value held by an array survives later writes to ANOTHER array built from it
+            a = A(xs)
+            b = A(a) if path != "ctor_from_iter_write" else A(iter(a))
+            victim, keeper = (b, a) if path != "ctor_from_array_write_orig" else (a, b)
+            for i in range(len(victim)):
+                victim[i] = X.from_ticks(1 - (xs[i].ticks & 1))
+            if len(victim) > 1:
+                victim[0:2] = [X.from_ticks(7), X.from_ticks(-7)]
+            out = [x.ticks for x in keeper]
         else:
             raise AssertionError(path)
         return {"items": out}
@@ -185,7 +195,8 @@ def gen_cases(rng, tier):
         cases.append({"k": "from_tuple", "dt": rng.random() < 0.5, "w": w, "f": f})
     # arrays
     inr = battery(False)
-    paths = ["iter", "index", "negindex", "slice", "setitem", "setslice", "insert", "extend", "append", "pickle", "deepcopy"]
+    paths = ["iter", "index", "negindex", "slice", "setitem", "setslice", "insert", "extend", "append", "pickle", "deepcopy",
+             "ctor_from_array_write_copy", "ctor_from_array_write_orig", "ctor_from_iter_write"]
     for _ in range(250 if tier == "quick" else 6000):
         n = rng.choice([0, 1, 1, 2, 3, 5, 8])
         l = [rng.choice(inr) if rng.random() < 0.5 else rand128(rng) for _ in range(n)]
